@@ -242,6 +242,10 @@ impl RuntimeData {
     }
 
     pub fn free_object(&mut self, obj: NonNull<CaoLangObject>) {
+        #[cfg(feature = "verif-hooks")]
+        if crate::verif::with(|c| c.on_free_object(self, obj)).unwrap_or(false) {
+            return;
+        }
         unsafe {
             std::ptr::drop_in_place(obj.as_ptr());
             self.memory
@@ -292,6 +296,8 @@ impl RuntimeData {
 
     pub fn gc(&mut self) {
         debug!("• GC");
+        #[cfg(feature = "verif-hooks")]
+        crate::verif::with(|c| c.before_gc(self));
         // mark all roots for collection
         let mut progress_tracker = Vec::with_capacity(self.value_stack.len());
         for val in self.value_stack.iter() {
@@ -389,6 +395,8 @@ impl RuntimeData {
                 }
             }
         }
+        #[cfg(feature = "verif-hooks")]
+        crate::verif::with(|c| c.after_gc(self));
         debug!("✓ GC");
     }
 
